@@ -274,6 +274,60 @@ def run_tlc(h0, ctx):
     ctx.sample({"tlc_window_AH": [h0, h1], "states": len(states), "first": states[0], "last": states[-1]})
 
 
+def easter_tlc_states(y0, y1):
+    import os
+    import re
+    import shutil
+    import subprocess
+    import tempfile
+    from .. import ROOT
+    tmp = tempfile.mkdtemp(prefix="vmc_tlc_")
+    try:
+        shutil.copy(os.path.join(ROOT, "models", "Easter.tla"), tmp)
+        with open(os.path.join(tmp, "Easter.cfg"), "w") as f:
+            f.write("CONSTANTS\n YP = %d\n YN = %d\n SPAN = %d\nSPECIFICATION Spec\nINVARIANT TypeOK\n"
+                    % (max(y0, 0), max(-y0, 0), y1 - y0))
+        dump = os.path.join(tmp, "states")
+        r = subprocess.run(["tlc", "-workers", "1", "-noGenerateSpecTE", "-deadlock", "-metadir",
+                            os.path.join(tmp, "meta"), "-dump", dump, "Easter"], cwd=tmp, capture_output=True,
+                           text=True, timeout=1200)
+        if "Model checking completed. No error has been found" not in r.stdout:
+            raise RuntimeError("TLC failed:\n" + r.stdout[-2000:] + r.stderr[-500:])
+        return [dict((k, int(v)) for k, v in re.findall(r"/\\ (\w+) = (-?\d+)", blk))
+                for blk in open(dump + ".dump").read().split("State ")[1:]]
+    finally:
+        shutil.rmtree(tmp, ignore_errors=True)
+
+
+def run_easter_tlc(window, ctx):
+    y0, y1 = window
+    states = sorted(easter_tlc_states(y0, y1), key=lambda s: s["y"])
+    for s in states:
+        ctx.evals += 1
+        ctx.states += 1
+        ctx.transitions += 1
+        ctx.nt_count += 1
+        y = s["y"]
+        msgs = list(check_easter(y))
+        try:
+            got = tuple(Epoch.easter(y))
+            if got != (s["mo"], s["da"]):
+                msgs.append("easter(%d) = %r, Gauss's algorithm (TLA+ model) gives %r" % (y, got, (s["mo"], s["da"])))
+        except Exception as ex:
+            msgs.append("easter(%d) raised %r" % (y, ex))
+        if computus.easter(y) != (s["mo"], s["da"]):
+            msgs.append("TLA+ model (Gauss) gives %r for %d, tabular Computus %r" % ((s["mo"], s["da"]), y, computus.easter(y)))
+        for msg in msgs:
+            ctx.viol({"year": y}, msg, site="easter_tlc")
+        ctx.outcome((s["mo"], s["da"]))
+    if len(states) != y1 - y0 + 1:
+        ctx.viol({"year": y0}, "TLC dumped %d states for %d years" % (len(states), y1 - y0 + 1), site="easter_tlc")
+    ctx.traces += 1
+    ctx.count("tlc_states_dumped", len(states))
+    ctx.obs(window, len(states))
+    ctx.sample({"tlc_window": list(window), "states": len(states), "last": states[-1]})
+
+
 def clauses(tier):
     hs = islamic.year_starts(1, 2500)
     n_end = fast().n(3000, 12, 31)
@@ -286,5 +340,7 @@ def clauses(tier):
         Clause("moslem_to_civil", chunks(hs, 64), run_m2g, replay_m2g, floor=800000, shape="S"),
         Clause("civil_to_moslem", chunks(hs_civil, 64), run_g2m, replay_g2m, floor=800000,
                shape="S"),
-    ] + ([Clause("tlc_cross_model", TLC_WINDOWS, run_tlc, replay_m2g, floor=1000, shape="S")]
+    ] + ([Clause("tlc_cross_model", TLC_WINDOWS, run_tlc, replay_m2g, floor=1000, shape="S"),
+          Clause("easter_tlc_model", [(-4712, -2001), (-2000, -1), (0, 1582), (1583, 3999), (4000, 6999), (7000, 10000)],
+                 run_easter_tlc, lambda c: check_easter(c["year"]), floor=10000, shape="S")]
          if tier == "thorough" and c01.tlc_available() else [])
